@@ -17,19 +17,22 @@ MANIFEST = {
             "Merkle root of the tree image of the resulting state (the root of EVERY history of tree batches that builds that image); "
             "reverting the block restores every key's binding, the previous root and the tree-state record; restart recovery (Init) "
             "rolls the application back to exactly the state it had at the engine's tip and succeeds iff the engine's root is that "
-            "state's root; every database reachable by any sequence of blocks / reverts / restarts satisfies the invariant. "
+            "state's root; every database reachable by any sequence of blocks / reverts / Finalize / restarts satisfies the invariant; the events of a block "
+            "are renumbered 0,1,2,... by the engine with nothing else changed. "
             "Tie: random command scripts across three module stores with snapshots inside commands, hooks, unknown commands, "
             "dry-run / expected-root commits, revert, and restart-with-application-ahead sequences on the real ABIHandler; "
             "observables = result codes, events, values read, snapshot ids, sorted state-DB dump, tree-state record, every returned "
             "root compared with the real SMT root of the dumped state built from scratch; a second, declarative reference semantics "
             "(plain map, no cache) is the oracle for answers, events and the committed state.",
-    "note": "The sparse Merkle tree is abstract in the theorems (tree states, batch update, root as Section variables); the only fact "
-            "assumed about it is the statement of C10_root_is_function_of_map, and C16_composed_with_C10 discharges it with the trie of "
-            "coq/SMT (no tree assumption left). Other hypotheses: SHA-256 injective, bytes.ToBools injective, tree keys have the trie's "
-            "key length, root comparison is equality; script keys are module-store keys (state prefix + 6 bytes). The 8-bit sub-tree "
-            "storage layout of pkg/trie/smt is tied to the abstract trie by C10's correspondence, and here by comparing every root "
-            "with a from-scratch real trie. diffdb's shared-cache semantics are those repaired under C12. Four defects repaired in "
-            "/repo, see findings/C16.json.",
+    "note": "The sparse Merkle tree is abstract in the theorems; the only fact assumed about it is the statement of "
+            "C10_root_is_function_of_map, discharged for the trie of coq/SMT in C16_composed_with_C10. Other hypotheses (satisfiable; "
+            "C16_hypotheses_consistent instantiates all of them with the real 8-bit expansion and a toy hash, C16_reach_nonvacuous runs a "
+            "block inside the instance): the hash yields 32 proper bytes and has no collision among the state keys of the run, the bit "
+            "expansion has 8 bits per byte and is injective on proper byte strings of equal length, root comparison is equality; script "
+            "keys are module-store keys (state prefix + 6 bytes) of the run's key universe. Not proved, only checked by the "
+            "correspondence oracle: the exact whole-transaction event list of a failed transaction tied to the script. The real trie's "
+            "storage layout is tied to the abstract trie by C10's correspondence and here by comparing every root with a from-scratch "
+            "real trie. Four defects repaired in /repo, see findings/C16.json.",
 }
 IMPORTS = "From LE Require Import Exec.EventLog Exec.TxExec Exec.StateRoot Exec.Recovery Corr.C16."
 
@@ -116,6 +119,8 @@ def step_term(s):
     if s["t"] == "gen":
         return "(SGen %d %s %s %s %s)" % (s["h"], clist(s.get("txs") or [], tx_term), clist(s.get("txs2") or [], tx_term),
                                           cbool(s.get("selok", False)), tail)
+    if s["t"] == "fin":
+        return "(SFin %d %s %s %s)" % (s.get("last", 0), r, cbool(s["treeref"]), dump(s["dump"]))
     if s["t"] == "revert":
         return "(SRevert %d %s %s)" % (s["h"], EXP[s["exp"]], tail)
     return "(SInit %d %s %s)" % (s.get("last", 0), cbool(s["exp"] == "wrong"), tail)
@@ -152,6 +157,7 @@ def evaluate(ck, recs):
         spec_bad = c >= 2
         names = {"block": "ExecuteTransaction/Commit", "revert": "Revert", "init": "Init (restart recovery)",
                  "cblock": "block executed through consensus abi_caller (block-level event renumbering) + Commit",
+                 "fin": "Finalize",
                  "gen": "block generation (selectTransactionsByFee + Commit{DryRun}) then the block on a fresh context"}
         what = "%s: implementation %s (scenario %d step %d): %s" % (
             names[s["t"]], "violates the C16 oracle" if spec_bad else "differs from the proved model", r["id"], ix, json.dumps(s)[:1200])
